@@ -245,6 +245,15 @@ def judge(ctx, scenarios, tracefile, props=None, label='srv', confirm=True):
                 if percls[c] <= 2:      # at most two replay files per distinct clause signature
                     ok = (not confirm) or cls in getattr(ctx, '_known', {}) or confirmed(ctx, byid.get(t), c, rerun)
                     conf[c] = conf.get(c, False) or ok
+                    if not ok:
+                        # keep the recording that raised it: the only evidence there is of what the harness saw
+                        try:
+                            for ln in open(tracefile):
+                                if ln.startswith('{') and ('"t":%d}' % t in ln[-24:] or '"t": %d}' % t in ln[-24:]):
+                                    ctx.save_finding('unconfirmed_trace_%d' % t, {'kind': 'unconfirmed-trace', 'clause': c, 'trace': json.loads(ln)})
+                                    break
+                        except Exception:
+                            pass
                     if ok:
                         ctx.extra['rejected_by_clause'][c] = ctx.extra['rejected_by_clause'].get(c, 0) + 1
                         ctx.report(cls, '%s: %s' % (label, c), {'kind': 'srv', 'clause': c, 'scenario': byid.get(t)})
